@@ -809,7 +809,8 @@ def run_batch68(bdir, wd, bi, base, lower, insts):
 def probe_cut68(bdir, wd):
     """raw 6800 images (not assembler output) around RetrieveCodeFromChunkList: an instruction cut off by the end of the image, one
     that lies in two adjacent chunks, a vector cell that is only half there, an empty image, and an instruction that runs through
-    the end of the address space: [(name, sig, c15 driver request, info)]; sig None = repaired or never defective, must hold"""
+    the end of the address space: [(name, sig, c15 driver request, info)]; sig None = repaired or never defective, must hold (so must
+    a class whose signature is listed as fixed in known_findings.json)"""
     out = []
     for name, sig, chunks_, entry, need_reasm in (
             ("cut", None, [(0x1000, bytes([0x01, 0xb6, 0x12]))], "d:4096", True),
@@ -823,7 +824,14 @@ def probe_cut68(bdir, wd):
             # start - meets at $1002 an instruction that does not fit into the image (das.c leaves the area there); the label in the
             # middle of an instruction is never defined, so this listing cannot be re-assembled
             ("listing-cut", None, [(0x1000, bytes([0x20, 0xff, 0xb6, 0x12]))], "d:4096", False),
-            ("wrap", "dasl-instruction-wraps-64k", [(0xfffe, bytes([0xb6, 0x12])), (0x0000, bytes([0x10]))], "d:65534", False)):
+            # the end of the address space (deco68.c RetrieveData; repaired by bdcaec7, the signature is listed as fixed and suppresses
+            # nothing): an operand is not continued at address 0, an opcode asked for at $10000 is not taken from address 0, the
+            # last byte of the address space is still an instruction
+            ("wrap", "dasl-instruction-wraps-64k", [(0xfffe, bytes([0xb6, 0x12])), (0x0000, bytes([0x10]))], "d:65534", False),
+            ("wrap-at-ffff", "dasl-instruction-wraps-64k", [(0xffff, bytes([0xb6])), (0x0000, bytes([0x12, 0x10, 0x39]))], "d:65535", False),
+            ("wrap-entry-10000", "dasl-instruction-wraps-64k", [(0xfffe, bytes([0x01, 0x01])), (0x0000, bytes([0x39]))], "d:65536", False),
+            ("top-byte", None, [(0xfffe, bytes([0x01, 0x39]))], "d:65535", True),
+            ("top-ext", None, [(0xfffd, bytes([0x7e, 0xff, 0xfd]))], "d:65533", True)):
         largs = []
         for i, (st, d) in enumerate(chunks_):
             bf = os.path.join(wd, "%s%d.bin" % (name, i))
